@@ -283,6 +283,12 @@ def frames_equal_exact(a, c):
         [str(x) for x in a.dtypes] == [str(x) for x in c.dtypes]
 
 
+def exact_sig(frames):
+    return tuple((k, tuple(str(c) for c in f.columns), tuple(str(d) for d in f.dtypes),
+                  tuple(tuple(repr(v) for v in r) for r in f.itertuples(index=False, name=None)))
+                 for k, f in sorted(frames.items()))
+
+
 def history(b, ec, rng, length):
     import pandas
 
@@ -307,6 +313,10 @@ def history(b, ec, rng, length):
             p = perturb(rng, dm)
             if p is not None:
                 add(p[1])
+    # live data maps: frame objects the caller keeps, re-uses for several operations and changes in place
+    live = [realize(dmx) for dmx in pool]
+    model_exact = {}
+    stored_combos = []
     returned = []
     stored_src = []
     opnames = []
@@ -315,17 +325,50 @@ def history(b, ec, rng, length):
     mutated = False
     b.evaluation()
     for step in range(length):
-        op = rng.choice(["store", "store", "get", "get", "get", "mut_returned", "mut_stored", "mut_inputs"])
-        opnames.append(op)
-        b.count("ops", op)
-        dm = rng.choice(pool)
+        op = rng.choice(["store", "store", "get", "get", "get", "mut_returned", "mut_stored", "mut_inputs", "mut_live"])
+        pi = rng.randrange(len(pool))
+        dm = pool[pi]
         m = rng.choice(ms)
         sql = rng.choice(SQLS[:3])
-        frames = realize(dm)
+        use_live = rng.random() < 0.5
+        if op == "get" and stored_combos and rng.random() < 0.6:
+            # look up something that was stored (possibly changed in place since)
+            pi, m, sql = rng.choice(stored_combos)
+            dm = pool[pi]
+        if op == "store":
+            stored_combos.append((pi, m, sql))
+        frames = live[pi] if use_live else realize(dm)
+        opnames.append(op + ("@live%d" % pi if (use_live and op in ("store", "get")) or op == "mut_live" else ""))
+        b.count("ops", op)
+        if op == "mut_live":
+            # in-place change of a frame the caller keeps (same object, same shape, same column names)
+            for f in live[pi].values():
+                if f.shape[0] >= 2:
+                    j = rng.randrange(f.shape[1])
+                    if rng.random() < 0.5:
+                        if cell_rep(f.iloc[0, j]) != cell_rep(f.iloc[-1, j]):
+                            f.iloc[0, j] = f.iloc[-1, j]
+                            mutated = True
+                            b.count("live_mutations", "cell")
+                    else:
+                        first, last = f.iloc[0].tolist(), f.iloc[-1].tolist()
+                        if [cell_rep(v) for v in first] != [cell_rep(v) for v in last]:
+                            for jj in range(f.shape[1]):
+                                f.iloc[0, jj] = last[jj]
+                                f.iloc[-1, jj] = first[jj]
+                            mutated = True
+                            b.count("live_mutations", "swaprows")
+            continue
         mk = (str(m), sql, canon_map(frames))
+        ex_sig = exact_sig(frames)
+        if mk in model_exact and model_exact[mk] != ex_sig:
+            # equal in the property's sense but not identical (1 vs 1.0 after an in-place change): never asserted
+            b.count("ambiguous_equal_not_identical")
+            continue
         ctx = f"step {step} op {op} history={opnames}"
         try:
             if op == "store":
+                model_exact[mk] = ex_sig
                 n = rng.randint(0, 3)
                 res = pandas.DataFrame({"r": [rng.randint(0, 9) for _ in range(n)], "s": [rng.choice("ab") for _ in range(n)]})
                 cache.store(db_model=m, sql=sql, data_map=frames, res=res)
